@@ -555,8 +555,8 @@ Lemma step_mono : forall s l s', step s l = Some s' ->
   (forall c, cause_of (ph s) = Some c -> cause_of (ph s') = Some c) /\
   (active (ph s) = false -> active (ph s') = false).
 Proof.
-  intros s l s' H; destruct l; inv_step H; prep; repeat split; intros; simpl in *; try congruence; auto.
-  all: idtac. Show.
+  intros s l s' H; destruct l; inv_step H; prep; repeat split; intros; simpl in *; try congruence; auto;
+    destruct (ph s); simpl in *; discriminate.
 Qed.
 Lemma run_mono : forall ls s s', run s ls = Some s' ->
   (ph s <> Body -> bsteps s' = bsteps s /\ ph s' <> Body) /\
@@ -577,8 +577,7 @@ Proof.
   intros s l s' t I H F. pose proof (i_time _ I) as T. pose proof (i_inert _ I) as A2.
   unfold tinv in T. rewrite F in T.
   destruct l; inv_step H; prep; auto.
-  exfalso. destruct (ph s); simpl in *; try (destruct T; congruence);
-    specialize (A2 eq_refl); match goal with H : intr _ = _ |- _ => rewrite H in A2 end; discriminate.
+  exfalso. destruct (ph s); simpl in *; try (destruct T; discriminate); specialize (A2 eq_refl); discriminate.
 Qed.
 Lemma fired_stable_run : forall ls s s' t, inv s -> run s ls = Some s' -> fired_at s = Some t -> fired_at s' = Some t.
 Proof.
@@ -666,3 +665,66 @@ Theorem already_true_on_entry_thm :
   step (init (Until true)) Tick = None /\
   exists s', step (init (Until true)) DeliverInterrupt = Some s' /\ ph s' = Closing COwnInterrupt /\ bsteps s' = 0.
 Proof. repeat split. eexists; repeat split. Qed.
+
+(** * concrete reachable states (non-vacuity) *)
+Lemma reachable_of_run : forall k ls s, run (init k) ls = Some s -> reachable k s.
+Proof. intros. eapply reachable_run; [apply r_init|eauto]. Qed.
+
+Definition summary (o : option state) :=
+  match o with
+  | Some s => Some (ph s, map (fun c => (vol c, st c, listed c, ran c, late c)) (kids s), intr s,
+                    (bsteps s, now s, fired_at s, exited_at s))
+  | None => None
+  end.
+
+Definition ex_graceful : list label :=
+  [Spawn false; Spawn true; ChildStart 0; ChildStart 1; BodyStep; BodyReturn; Spawn false; AwaitStep;
+   ChildStart 2; ChildReturn 0; AwaitStep; ChildCancel 2; AwaitStep; CloseChild 1 false; FinishClose;
+   Spawn false; Tick].
+Example ex_graceful_ok : summary (run (init Plain) ex_graceful) =
+  Some (Exited CGraceful NoExc,
+        [(false, Done Success, false, true, false); (true, Done ClosedVolatile, false, true, false);
+         (false, Done CancelledInd, false, true, true); (false, Done Discarded, false, false, false)],
+        NoIntr, (1, 1, None, Some 0)).
+Proof. vm_compute. reflexivity. Qed.
+(* the volatile child cannot be closed, and the block cannot be left, while child 2 (late) is alive *)
+Example ex_graceful_blocked :
+  summary (run (init Plain) (firstn 11 ex_graceful ++ [AwaitStep])) =
+  summary (run (init Plain) (firstn 11 ex_graceful)) /\
+  run (init Plain) (firstn 11 ex_graceful ++ [CloseChild 1 false]) = None /\
+  run (init Plain) (ex_graceful ++ [ChildStart 3]) = None.
+Proof. vm_compute. auto. Qed.
+
+Definition ex_until : list label :=
+  [Spawn false; Spawn true; ChildStart 0; Tick; BodyStep; Fire; BodyStep; DeliverInterrupt;
+   CloseChild 0 false; CloseChild 1 false; FinishClose; ChildReap 1; Tick].
+Example ex_until_ok : summary (run (init (Until false)) ex_until) =
+  Some (Exited COwnInterrupt NoExc,
+        [(false, Done ClosedScope, false, true, false); (true, Done ClosedVolatile, false, false, false)],
+        IDelivered, (2, 2, Some 1, Some 1)).
+Proof. vm_compute. reflexivity. Qed.
+Example ex_until_no_tick_while_scheduled :
+  run (init (Until false)) [Fire; Tick] = None /\ run (init (Until true)) [Tick] = None /\
+  run (init (Until false)) (firstn 8 ex_until ++ [CloseChild 1 false]) = None.
+Proof. vm_compute. auto. Qed.
+
+Definition ex_fail : list label :=
+  [Spawn false; Spawn false; ChildStart 0; BodyReturn; AwaitStep; ChildFail 0; DeliverCancelSelf;
+   CloseChild 1 true; FinishClose; ChildReap 1; Tick; Spawn true].
+Example ex_fail_ok : summary (run (init (Until false)) ex_fail) =
+  Some (Exited COwnCancel ChildExc,
+        [(false, Done Failed, false, true, false); (false, Done ClosedScope, false, false, false);
+         (true, Done Discarded, false, false, false)],
+        Unsubscribed, (0, 1, None, Some 0)).
+Proof. vm_compute. reflexivity. Qed.
+
+Definition ex_true : list label := [BodyStep; Spawn false; ChildStart 0; DeliverInterrupt; CloseChild 0 true; FinishClose].
+Example ex_true_ok : summary (run (init (Until true)) ex_true) =
+  Some (Exited COwnInterrupt ChildExc, [(false, Done Failed, false, true, false)], IDelivered, (1, 0, Some 0, Some 0)).
+Proof. vm_compute. reflexivity. Qed.
+
+Definition ex_race : list label :=   (* notification fires, but the body and children finish first *)
+  [Spawn false; ChildStart 0; BodyReturn; AwaitStep; ChildReturn 0; Fire; AwaitStep; FinishClose; Tick].
+Example ex_race_ok : summary (run (init (Until false)) ex_race) =
+  Some (Exited CGraceful NoExc, [(false, Done Success, false, true, false)], IRevoked, (0, 1, Some 0, Some 0)).
+Proof. vm_compute. reflexivity. Qed.
